@@ -160,6 +160,38 @@ def _future_vars(r: 'BatcherRoles') -> Set[str]:
     return out
 
 
+def _elem_pos(target: ast.AST, e: ast.AST) -> Optional[int]:
+    """Index of the entry field that *e* selects, for a comprehension / loop target that is either a tuple of
+    names (`for k, a, f in tasks`: `k` -> 0) or a single name (`for t in tasks`: `t[0]` -> 0)."""
+    if isinstance(target, ast.Tuple) and isinstance(e, ast.Name):
+        names = [x.id if isinstance(x, ast.Name) else None for x in target.elts]
+        return names.index(e.id) if e.id in names else None
+    if isinstance(target, ast.Name) and isinstance(e, ast.Subscript) and isinstance(e.value, ast.Name) and e.value.id == target.id \
+            and isinstance(e.slice, ast.Constant) and isinstance(e.slice.value, int):
+        return e.slice.value
+    return None
+
+
+def _entry_positions(r: 'BatcherRoles') -> Tuple[Optional[int], Optional[int]]:
+    """(index of the key, index of the future) in the tuple that __call__ puts on the work queue."""
+    gc = r.gcall
+    futs = _future_vars(r)
+    kparam = r.call.params[2] if len(r.call.params) > 2 else None
+    for n in gc.nodes:
+        if n.kind == 'call' and isinstance(n.ast.func, ast.Attribute) and n.ast.func.attr in ('put', 'put_nowait') \
+                and sattr(gc, n.ast.func.value) == r.workq and n.ast.args:
+            a = resolve(gc, n, n.ast.args[0], keep=tuple(futs) + ((kparam,) if kparam else ()))
+            if isinstance(a, ast.Tuple):
+                kp = fp = None
+                for i, el in enumerate(a.elts):
+                    if isinstance(el, ast.Name) and el.id in futs:
+                        fp = i
+                    elif isinstance(el, ast.Name) and el.id == kparam:
+                        kp = i
+                return kp, fp
+    return None, None
+
+
 def _in_body(g: CFG, head: Node) -> List[Node]:
     return [n for n in g.nodes if head.ast in n.loops]
 
@@ -212,12 +244,12 @@ def c04(ctx: Ctx) -> None:
     # BATCHFUTS maps each task's key to that task's future; args pairs key with argument
     dc = r.batchfuts_expr
     ok = False
-    if isinstance(dc, ast.DictComp) and len(dc.generators) == 1 and not dc.generators[0].ifs:
+    # positions of key and future in a queue entry, read off the enqueue site in __call__
+    kpos, fpos = _entry_positions(r)
+    if isinstance(dc, ast.DictComp) and len(dc.generators) == 1 and not dc.generators[0].ifs and kpos is not None:
         gen = dc.generators[0]
-        if isinstance(gen.iter, ast.Name) and gen.iter.id == r.tasks_param and isinstance(gen.target, ast.Tuple) \
-                and len(gen.target.elts) == 3 and all(isinstance(e, ast.Name) for e in gen.target.elts):
-            k, _, f = [e.id for e in gen.target.elts]
-            ok = isinstance(dc.key, ast.Name) and dc.key.id == k and isinstance(dc.value, ast.Name) and dc.value.id == f
+        if isinstance(gen.iter, ast.Name) and gen.iter.id == r.tasks_param:
+            ok = _elem_pos(gen.target, dc.key) == kpos and _elem_pos(gen.target, dc.value) == fpos
     ctx.check('C04-B1', f'{r.batchfuts} = {norm(dc)}', where, ok,
               'maps the key of every task to the future of the same task',
               'the per-batch dict does not pair each key with its own future',
@@ -519,10 +551,16 @@ def c10(ctx: Ctx) -> None:
                 ctx.violation('C10-R1', f'size guard {norm(t)}', g.loc(n),
                               'the guard admits a growth when the list already holds max_batch_size items (off by one)',
                               construct=construct_key(r.assemble.qualname, 'guard', t))
+    from ..dataflow import unalias
+
+    def _is_L(n, e):
+        u_ = unalias(g, n, e)
+        return isinstance(u_, ast.Name) and u_.id == L
     growths = [n for n in g.nodes if n.kind == 'call' and isinstance(n.ast.func, ast.Attribute)
-               and isinstance(n.ast.func.value, ast.Name) and n.ast.func.value.id == L
+               and _is_L(n, n.ast.func.value)
                and n.ast.func.attr in ('append', 'extend', 'insert', '__iadd__')]
-    growths += [n for n in g.nodes if n.kind == 'store_name' and n.meta['name'] == L and n is not birth]
+    growths += [n for n in g.nodes if n.kind == 'store_name' and n.meta['name'] == L and n is not birth
+                and not (n.meta.get('inlined_param') and isinstance(n.meta.get('value'), ast.Name) and n.meta['value'].id == L)]
     ctor_max = None
     if guards:
         maxattr = guards[0][2]
@@ -1056,6 +1094,14 @@ def _registry(ctx: Ctx, p) -> None:
         ctx.check('C15-R3', f'{norm(s.ast)} stored right after the miss, before use', g.loc(s), w is None,
                   'atomic create-and-register', 'two calls on one loop can both build a batcher', witness=render(g, w),
                   construct=construct_key(wrapper.qualname, 'non-atomic registry'))
+    miss_ids = {id(e) for e in miss}
+    for s_ in stores:
+        w = find_path(g, [g.entry], [s_], edge_ok=lambda e: id(e) not in miss_ids)
+        ctx.check('C15-R3', f'{norm(s_.ast)}: a batcher is created only when the registry has none for this loop', g.loc(s_), w is None,
+                  'creation is reached through the miss edge of the registry look-up only',
+                  'something other than a registry miss (e.g. a KeyError raised by the delegated call) makes the wrapper build a second '
+                  'batcher for the loop and overwrite the first: its queue, retention cache and in-flight futures are orphaned',
+                  witness=render(g, w), construct=construct_key(wrapper.qualname, 'spurious re-creation'))
     muts = [n for n in g.nodes if (n.kind == 'call' and isinstance(n.ast.func, ast.Attribute) and isinstance(n.ast.func.value, ast.Name)
                                    and n.ast.func.value.id == reg and n.ast.func.attr in ('clear', 'pop', 'popitem', 'update', 'setdefault'))
             or (n.kind == 'del_sub' and isinstance(n.ast.value, ast.Name) and n.ast.value.id == reg)]
